@@ -126,7 +126,8 @@ package bufiox
 //@   ensures 0 <= n && n <= len(p) && n <= len(old(self.$f)) && eqbytes(p, 0, old(self.$f), 0, n) && same(self.$f, old(self.$f)[n:])
 //@   ensures err != nil ==> len(self.$f) == 0 && same(self.$ferr, err)
 //@   ensures err == nil ==> n > 0 || len(p) == 0
-//@   assigns p[0:len(p)], self.$f, self.$ferr
+//@   assigns !istype(self, fakeIOReader) ==> p[0:len(p)]
+//@   assigns self.$f, self.$ferr
 
 //@ extern github.com/bytedance/gopkg/lang/mcache.Malloc
 //@   params size, capacity
@@ -156,8 +157,14 @@ package bufiox
 
 // Ownership: the reader may recycle exactly its own pool buffers: buf unless it is the caller's
 // (bufReadOnly), and the parked buffers, which are distinct live pool regions.
-//@ pred rdPool(r) = offset(r.pendingBuf) == 0 && (!r.bufReadOnly && cap(r.buf) > 0 ==> region(r.buf).$pool == 1) && (forall j int :: 0 <= j && j < len(r.pendingBuf) ==> region(r.pendingBuf[j]).$pool == 1 && region(r.pendingBuf[j]) != region(r.buf)) && (forall i int :: forall j int :: 0 <= i && i < j && j < len(r.pendingBuf) ==> region(r.pendingBuf[i]) != region(r.pendingBuf[j]))
-//@ pred rdOwns(r, g) = (g == region(r.buf) && !r.bufReadOnly) || (exists j int :: 0 <= j && j < len(r.pendingBuf) && g == region(r.pendingBuf[j]))
+//@ pred rdPool(r) = offset(r.pendingBuf) == 0 && (!r.bufReadOnly && cap(r.buf) > 0 ==> region(r.buf).$pool == 1) && (forall j int :: 0 <= j && j < len(r.pendingBuf) ==> allocated(r.pendingBuf[j]) && region(r.pendingBuf[j]).$pool == 1 && region(r.pendingBuf[j]) != region(r.buf)) && (forall i int :: forall j int :: 0 <= i && i < j && j < len(r.pendingBuf) ==> region(r.pendingBuf[i]) != region(r.pendingBuf[j]))
+//@ pred rdOwns(r, g) = (g == region(r.buf) && !r.bufReadOnly && cap(r.buf) > 0) || (exists j int :: 0 <= j && j < len(r.pendingBuf) && g == region(r.pendingBuf[j]))
+
+// What every method keeps (assumed of a reader that is used through the Reader interface):
+// the invariants, and the buffer is either still the same allocation with the same ownership
+// flag, or a new allocation.
+//@ pred rdBufKept(r) = isnil(r.buf) || fresh(r.buf) || (region(r.buf) == old(region(r.buf)) && (old(r.bufReadOnly) ==> r.bufReadOnly))
+//@ constraint DefaultReader: (old(drInv(self) && rdPool(self)) ==> drInv(self) && rdPool(self)) && rdBufKept(self)
 
 //@ model DefaultReader.$u = strwin(self.rd.$f, self.ri - len(self.buf), len(self.rd.$f) + len(self.buf) - self.ri)
 //@ model DefaultReader.$readlen = self.ri
@@ -183,8 +190,8 @@ package bufiox
 //@   ensures 0 <= ret && ret <= n && ret <= len(r.buf) - r.ri
 //@   ensures (ret == n) == (n <= len(U))
 //@   ensures ret < n ==> !isnil(r.err)
-//@   ensures region(r.buf) == region(old(r.buf)) || fresh(r.buf)
-//@   assigns r.buf, r.bufReadOnly, r.pendingBuf, r.err, r.buf[len(r.buf):cap(r.buf)], r.rd.$f, r.rd.$ferr
+//@   ensures (region(r.buf) == region(old(r.buf)) && r.bufReadOnly == old(r.bufReadOnly)) || fresh(r.buf)
+//@   assigns r.buf, r.bufReadOnly, r.pendingBuf, r.pendingBuf[len(r.pendingBuf):cap(r.pendingBuf)], r.err, !istype(r.rd, fakeIOReader) ==> r.buf[len(r.buf):cap(r.buf)], r.rd.$f, r.rd.$ferr
 //@   loop 1 invariant 4096 <= maxSize && maxSize <= 0x800000000000
 //@   loop 1 decreases n - maxSize
 //@   loop 2 invariant 2 <= ncap && ncap <= 0x2000000000000
@@ -202,8 +209,8 @@ package bufiox
 //@   ensures 0 <= ret && ret <= n && ret <= len(r.buf) - r.ri
 //@   ensures (ret == n) == (n <= len(U))
 //@   ensures ret < n ==> !isnil(r.err)
-//@   ensures region(r.buf) == region(old(r.buf)) || fresh(r.buf)
-//@   assigns r.buf, r.bufReadOnly, r.pendingBuf, r.err, r.buf[len(r.buf):cap(r.buf)], r.rd.$f, r.rd.$ferr
+//@   ensures (region(r.buf) == region(old(r.buf)) && r.bufReadOnly == old(r.bufReadOnly)) || fresh(r.buf)
+//@   assigns r.buf, r.bufReadOnly, r.pendingBuf, r.pendingBuf[len(r.pendingBuf):cap(r.pendingBuf)], r.err, !istype(r.rd, fakeIOReader) ==> r.buf[len(r.buf):cap(r.buf)], r.rd.$f, r.rd.$ferr
 
 //@ func DefaultReader.Next
 //@   arith int
@@ -212,7 +219,7 @@ package bufiox
 //@   requires drInv(r) && rdPool(r) && n <= 0x400000000000
 //@   ensures drInv(r) && rdPool(r) && n <= 0x400000000000
 //@   ensures err != nil && n >= 0 ==> same(err, r.rd.$ferr)
-//@   assigns r.ri, r.buf, r.bufReadOnly, r.pendingBuf, r.err, r.buf[len(r.buf):cap(r.buf)], r.rd.$f, r.rd.$ferr
+//@   assigns r.ri, r.buf, r.bufReadOnly, r.pendingBuf, r.pendingBuf[len(r.pendingBuf):cap(r.pendingBuf)], r.err, !istype(r.rd, fakeIOReader) ==> r.buf[len(r.buf):cap(r.buf)], r.rd.$f, r.rd.$ferr
 
 //@ func DefaultReader.Peek
 //@   arith int
@@ -220,7 +227,7 @@ package bufiox
 //@   refines Reader.Peek
 //@   requires drInv(r) && rdPool(r) && n <= 0x400000000000
 //@   ensures drInv(r) && rdPool(r) && n <= 0x400000000000
-//@   assigns r.buf, r.bufReadOnly, r.pendingBuf, r.err, r.buf[len(r.buf):cap(r.buf)], r.rd.$f, r.rd.$ferr
+//@   assigns r.buf, r.bufReadOnly, r.pendingBuf, r.pendingBuf[len(r.pendingBuf):cap(r.pendingBuf)], r.err, !istype(r.rd, fakeIOReader) ==> r.buf[len(r.buf):cap(r.buf)], r.rd.$f, r.rd.$ferr
 
 //@ func DefaultReader.Skip
 //@   arith int
@@ -228,7 +235,7 @@ package bufiox
 //@   refines Reader.Skip
 //@   requires drInv(r) && rdPool(r) && n <= 0x400000000000
 //@   ensures drInv(r) && rdPool(r) && n <= 0x400000000000
-//@   assigns r.ri, r.buf, r.bufReadOnly, r.pendingBuf, r.err, r.buf[len(r.buf):cap(r.buf)], r.rd.$f, r.rd.$ferr
+//@   assigns r.ri, r.buf, r.bufReadOnly, r.pendingBuf, r.pendingBuf[len(r.pendingBuf):cap(r.pendingBuf)], r.err, !istype(r.rd, fakeIOReader) ==> r.buf[len(r.buf):cap(r.buf)], r.rd.$f, r.rd.$ferr
 
 //@ func DefaultReader.ReadLen
 //@   arith int
@@ -242,7 +249,7 @@ package bufiox
 //@   refines Reader.ReadBinary
 //@   requires drInv(r) && rdPool(r) && region(bs) != region(r.buf) && len(bs) <= 0x400000000000
 //@   ensures drInv(r) && rdPool(r) && region(bs) != region(r.buf) && len(bs) <= 0x400000000000
-//@   assigns bs[0:len(bs)], r.ri, r.buf, r.bufReadOnly, r.pendingBuf, r.err, r.buf[len(r.buf):cap(r.buf)], r.rd.$f, r.rd.$ferr
+//@   assigns bs[0:len(bs)], r.ri, r.buf, r.bufReadOnly, r.pendingBuf, r.pendingBuf[len(r.pendingBuf):cap(r.pendingBuf)], r.err, !istype(r.rd, fakeIOReader) ==> r.buf[len(r.buf):cap(r.buf)], r.rd.$f, r.rd.$ferr
 
 //@ func DefaultReader.Release
 //@   arith int
@@ -250,18 +257,24 @@ package bufiox
 //@   refines Reader.Release
 //@   requires drInv(r) && rdPool(r)
 //@   ensures drInv(r) && rdPool(r)
-//@   assigns r.ri, r.buf, r.pendingBuf, r.maxSizeStats, r.buf[0:len(r.buf)]
+//@   assigns r.ri, r.buf, r.pendingBuf, r.maxSizeStats
+//@   assigns !r.bufReadOnly ==> r.buf[0:len(r.buf)]
 //@   assigns forall g int :: rdOwns(r, g) ==> g.$pool
 //@   loop 1 invariant -1 <= rangeindex && (forall j int :: rangeindex < j && j < len(r.pendingBuf) ==> region(r.pendingBuf[j]).$pool == 1) && region(r.buf).$pool == old(region(r.buf).$pool)
 
-// The source of a bytes reader never delivers anything: its future stream is empty.
-//@ model fakeIOReader.$f = ""
+// The source of a bytes reader never delivers anything: its future stream is empty (a zero-length
+// window of a ghost array attached to the boxed value, so that the reader's unread stream - the
+// window extended backwards over the buffered bytes - has somewhere to live).
+//@ ghost $fakebase string
+//@ model fakeIOReader.$f = strwin(self.$fakebase, 0, 0)
+//@ model fakeIOReader.$ferr = io.EOF
 //@ model BytesReader.$u = strwin(self.rd.$f, self.ri - len(self.buf), len(self.rd.$f) + len(self.buf) - self.ri)
 //@ model BytesReader.$readlen = self.ri
 
 //@ func fakeIOReader.Read
 //@   arith int
 //@   props C04, C09
+//@   refines io.Reader.Read
 //@   ensures n == 0 && err == io.EOF
 //@   assigns \nothing
 
@@ -278,7 +291,7 @@ package bufiox
 //@   arith int
 //@   props C04, C09
 //@   ensures fresh(ret) && ret.ri == 0 && (cap(buf) > 0 ==> same(ret.buf, buf) && ret.bufReadOnly) && (cap(buf) == 0 ==> isnil(ret.buf)) && isnil(ret.err) && !isnil(ret.rd) && len(ret.rd.$f) == 0
-//@   ensures rdPool(ret)
+//@   ensures rdPool(ret) && isnil(ret.pendingBuf) && istype(ret.rd, fakeIOReader) && fresh(ret.rd)
 //@   ensures[trusted] drInv(ret)
 
 // ---------------------------------------------------------------------------------------
@@ -313,6 +326,8 @@ package bufiox
 //@ pred wrMoved(w) = fresh(w.buf) && writable(w.buf) && pbKept(w) && (cap(old(w.buf)) == 0 ? len(w.pendingBuf) == old(len(w.pendingBuf)) : len(w.pendingBuf) == old(len(w.pendingBuf)) + 1 && same(w.pendingBuf[old(len(w.pendingBuf))], old(w.buf)))
 
 //@ model DefaultWriter.$wlen = len(self.buf)
+// What every method keeps (assumed of a writer that is used through the Writer interface).
+//@ constraint DefaultWriter: old(wrInv(self) && wrPool(self)) ==> wrInv(self) && wrPool(self)
 
 //@ func DefaultWriter.acquireSlow
 //@   arith int
@@ -388,7 +403,7 @@ package bufiox
 //@   ensures wrLive(w) && wrIsFake(w) ==> outBuf(w, *astype(w.wd, *fakeIOWriter).bw.flushBytes)
 //@   ensures err == nil ==> isnil(w.buf) && len(w.pendingBuf) == 0
 //@   ensures err != nil && isnil(old(w.err)) ==> same(w.err, err) && same(w.buf, old(w.buf)) && same(w.pendingBuf, old(w.pendingBuf))
-//@   assigns w.buf, w.pendingBuf, w.err, w.maxSizeStats, w.buf[0:len(w.buf)], w.wd.$nsunk, w.wd.$sunk
+//@   assigns w.buf, w.pendingBuf, w.err, w.maxSizeStats, w.buf[0:len(w.buf)], !wrIsFake(w) ==> w.wd.$nsunk, !wrIsFake(w) ==> w.wd.$sunk
 //@   assigns forall g int :: wrOwns(w, g) ==> g.$pool
 //@   assigns wrIsFake(w) ==> *astype(w.wd, *fakeIOWriter).bw.flushBytes
 //@   loop 1 invariant -1 <= rangeindex && rangeindex < len(w.pendingBuf) && offset == pbLo(w, rangeindex + 1)
@@ -418,5 +433,5 @@ package bufiox
 //@   arith int
 //@   props C05, C09
 //@   requires !isnil(buf) && (isnil(*buf) || writable(*buf))
-//@   ensures fresh(ret) && wrInv(ret) && wrPool(ret) && same(ret.buf, *buf) && len(ret.pendingBuf) == 0 && isnil(ret.err) && ret.disableCache
+//@   ensures fresh(ret) && wrInv(ret) && wrPool(ret) && same(ret.buf, *buf) && isnil(ret.pendingBuf) && isnil(ret.err) && ret.disableCache
 //@   ensures wrIsFake(ret) && astype(ret.wd, *fakeIOWriter).bw == ret && ret.flushBytes == buf
